@@ -210,6 +210,13 @@ def run_faults(cfg, out, props=None, tag="C05", profiles_pool=None, extra=None):
         with T.Run(r, mtu=mtu, dt=dt, jitter=r.choice([0.0, 0.2]), ctxt_setup=setup) as run:
             w = run.world
             w.net.heal(0.004)
+            # an operator debugging with the library's TRACE log level switched on (the payloads here are raw bytes,
+            # not Serializable encodings): what the library logs must not change what it delivers
+            import logging
+            trace_log = (case + cfg["shard"]) % 5 == 2
+            logging.getLogger("mpgameserver").setLevel(9 if trace_log else logging.WARNING)
+            if trace_log:
+                run.c.inc("worlds_with_trace_logging")
             c = w.add_client()
             # a long-lived session: message and fragment counters close to their 16-bit wrap
             wrap = r.choice([None, None, "client", "server", "both"])
